@@ -203,7 +203,7 @@ def run_shard(ctx):
     for i, script in enumerate(fixed):
         if ctx.mine(i):
             one_program(ctx, script, rng, all_settings)
-    for i in range(ctx.pick(12, 250)):
+    for i in range(ctx.pick(40, 800)):
         prog = rp.program()
         if gen.classify(prog).reject:
             continue
